@@ -734,6 +734,7 @@ class ChangeOfValueServices(Capability):
                 self.cancel_subscription(cov)
             else:
                 if _debug: ChangeOfValueServices._debug("    - renew the subscription")
+                cov.confirmed = confirmed
                 cov.renew_subscription(lifetime)
         else:
             if cancel_subscription:
@@ -813,6 +814,7 @@ class ChangeOfValueServices(Capability):
                 self.cancel_subscription(cov)
             else:
                 if _debug: ChangeOfValueServices._debug("    - renew the subscription")
+                cov.confirmed = confirmed
                 cov.renew_subscription(lifetime)
         else:
             if cancel_subscription:
